@@ -17,6 +17,7 @@ import (
 	"errors"
 	"fmt"
 	"hash/crc32"
+	"hash/fnv"
 	"io"
 	"math/rand"
 	"net"
@@ -309,6 +310,17 @@ func (g *group) inner(w http.ResponseWriter, r *http.Request) {
 				break
 			}
 		}
+	}
+	// two thirds of the handlers close the body themselves, as handlers commonly do (`defer r.Body.Close()`), a third
+	// of them twice (their own defer plus a helper's): Close of a request body is idempotent for every body net/http hands out
+	hh := fnv.New32a()
+	hh.Write([]byte(id))
+	switch hh.Sum32() % 3 {
+	case 1:
+		_ = r.Body.Close()
+	case 2:
+		_ = r.Body.Close()
+		_ = r.Body.Close()
 	}
 	g.mu.Lock()
 	rc.got, rc.gotN, rc.clean, rc.tooLarge, rc.overran, rc.readErr, rc.handlerDone = got, total, clean, tooLarge, overran, readErr, true
